@@ -34,6 +34,21 @@ fn fmt_out(o: &Outcome) -> String {
     }
 }
 
+#[cfg(feature = "count")]
+fn check_counts(violations: &mut Vec<String>, when: &str) {
+    let c = verif_rt::counts();
+    let mut total = 0;
+    for (t, name) in [(0usize, "LAYERS"), (1usize, "CSTS_C2V")] {
+        for d in 0..30 {
+            total += c[t][d];
+            if c[t][d] > 1 {
+                violations.push(format!("class=double-construct detail=\"{}[{}] constructed {} times ({})\"", name, d, c[t][d], when));
+            }
+        }
+    }
+    println!("COUNTS {} constructions {}", total, when);
+}
+
 fn main() {
     let args: Vec<String> = std::env::args().collect();
     if args.len() != 2 {
@@ -96,6 +111,9 @@ fn main() {
 
     // ---- post-quiescence: sequential reference (H3) and oracles ----
     let mut violations: Vec<String> = Vec::new();
+    // engine A' only (guarded "count" build): constructions per (table, depth) so far
+    #[cfg(feature = "count")]
+    check_counts(&mut violations, "after the last join");
     if harness_panic {
         violations.push("class=unexpected-panic detail=\"a caller thread died outside an op\"".to_string());
     }
@@ -147,6 +165,8 @@ fn main() {
             }
         }
     }
+    #[cfg(feature = "count")]
+    check_counts(&mut violations, "after the sequential re-execution");
     println!("SIG {:016x}", sig.finish());
     if violations.is_empty() {
         println!("VERDICT ok");
